@@ -26,6 +26,8 @@ pub struct TokenParts<'a> {
     pub prefix: usize,
     /// length of the trailing tag / signature
     pub suffix: usize,
+    /// RSA signatures: the public modulus, big endian (None otherwise)
+    pub modulus: Option<&'a [u8]>,
 }
 
 fn mid(class: &str, pos: usize, arg: usize) -> MutId {
@@ -219,6 +221,24 @@ pub fn token_mutants(p: &TokenParts, assertion_supported: bool, seed: u64, full_
             let mut x = p.payload[..pl - 32].to_vec();
             x.extend_from_slice(&s);
             push(mid("signature-scalar-plus-group-order", k, 0), x, p.footer.to_vec(), p.assertion.to_vec());
+        }
+    }
+    // 10. RSA signatures: the signature integer s replaced by s + n (the same residue modulo the
+    // public modulus; RSAVP1 refuses representatives outside 0..n-1) whenever s + n still fits the field
+    if let Some(n) = p.modulus {
+        if p.prefix == 0 && p.suffix == n.len() && pl >= n.len() {
+            let mut s = p.payload[pl - n.len()..].to_vec();
+            let mut carry = 0u16;
+            for i in (0..s.len()).rev() {
+                let t = s[i] as u16 + n[i] as u16 + carry;
+                s[i] = t as u8;
+                carry = t >> 8;
+            }
+            if carry == 0 {
+                let mut x = p.payload[..pl - n.len()].to_vec();
+                x.extend_from_slice(&s);
+                push(mid("signature-plus-modulus", 1, 0), x, p.footer.to_vec(), p.assertion.to_vec());
+            }
         }
     }
     // 7. interior deletions at the field boundaries (the total shrinks, both ends stay)
